@@ -37,22 +37,9 @@ Definition snap_kind (sn : snap) : Z :=   (* which tier holds the stranded task:
   if exists_from (fun i n => (0 <? n) && (sn_nr sn <=? Z.of_nat i)) 0 (sn_rings sn) then 1
   else if (0 <? sn_central sn) && (sn_nt sn =? 0) then 2 else 3.
 
-(* result: [accepted; first rejected index; snapshots agree; v01; v03; v08; stale kind; leaked at the end; stranded kind]
+(* result: [accepted; first rejected index; snapshots agree; v01; v03; v08; stale kind; model workRemaining at the end; stranded kind]
    v = 0 holds (and model agrees), 1 model and implementation disagree but the property holds on the implementation's output,
        2 property fails outside the known domain, 3 inconclusive (budget / deadlock), 4 property fails inside the known domain *)
-(* domain of the C01 finding "dtor-drain-task-reschedules": a task is generated (by a body that the destructor's own ring / steal-ring drain
-   runs) after the destructor's last central-queue drain has finished; the new task is enqueued centrally and never run *)
-Fixpoint late_gen (rcap scap share : Z) (s : state) (tr : list (nat * event)) : bool :=
-  match tr with
-  | [] => false
-  | (t, e) :: r =>
-      (match e, rz s with
-       | EGen _, RActive _ true _ (PhRings _ | PhSteals _ | PhDrained) => true
-       | _, _ => false
-       end) ||
-      match accept rcap scap share s t e with Some s' => late_gen rcap scap share s' r | None => false end
-  end.
-
 Definition snap_empty (sn : snap) : bool :=
   (sn_central sn =? 0) && forallb (fun n => n =? 0) (sn_rings sn) && forallb (fun n => n =? 0) (sn_steals sn).
 
@@ -66,7 +53,7 @@ Definition judge_pool (c : pcase) : list Z :=
   let once := forallb (fun n => n =? 1) (c_counts c) in
   let dup := existsb (fun n => 1 <? n) (c_counts c) in
   (* C01 *)
-  let lateg := late_gen (c_rcap c) (c_scap c) (c_share c) s0 (c_trace c) in
+  let lateg := late_gen (c_rcap c) (c_scap c) (c_share c) s0 (c_trace c) in   (* the predicate excluded by C01_dtor_drains_all *)
   let v01 := if dup then 2 else if negb done_ then 3 else if negb once then (if ok && lateg then 4 else 2) else if agree then 0 else 1 in
   (* C03 *)
   let stranded := existsb (fun sn => negb (sn_final sn) && snap_stranded sn) (c_snaps c) || (0 <? c_hang c) in
@@ -74,11 +61,10 @@ Definition judge_pool (c : pcase) : list Z :=
   let v03 := if dup then 2
              else if stranded then (if ok && negb (stale =? 0) then 4 else 2)
              else if negb done_ then 3 else if negb once then (if ok && lateg then 4 else 2) else if agree then 0 else 1 in
-  (* C08: at every snapshot with all tiers empty (all submitted work has finished) the counter must be zero; known domain: the model's ghost [leaked] explains the whole excess *)
+  (* C08: at every snapshot with all tiers empty (all submitted work has finished) the counter must be zero *)
   let bad08 := filter (fun sn => snap_empty sn && negb (sn_wr sn =? 0)) (c_snaps c) in
-  let explained := forallb (fun sn => match at_ sn with Some s => (0 <? leaked s) && (sn_wr sn =? leaked s) && quiescent s | None => false end) bad08 in
   let v08 := match bad08 with
              | [] => if negb done_ then 3 else if agree then 0 else 1
-             | _ => if ok && explained then 4 else 2
+             | _ => 2
              end in
-  [if ok then 1 else 0; Z.of_nat k; if snaps_ok then 1 else 0; v01; v03; v08; stale; leaked sEnd; skind].
+  [if ok then 1 else 0; Z.of_nat k; if snaps_ok then 1 else 0; v01; v03; v08; stale; wr sEnd; skind].
